@@ -391,6 +391,49 @@ def owner_loops(seed):
     except ValueError as e:
         problems.append(f"Bridge.recv_events raised {e!r} although every message could be delivered on retry")
     FakePoller.hook = None
+    # the controller WAITS for an event that only comes once its own (lost) command got through: nothing but the waiting loop of recv_events can
+    # resend it.  The executor answers the purge it finally receives with a publication.
+    net = Net()
+    comms = install(net)
+    br2 = object.__new__(bridge_mod.Bridge)
+    br2.mlistener = comms.Listener("C")
+    br2.sender = comms.ReliableSender("C", 800)
+    br2.sender.add_host("h0", "E")
+    br2.heartbeat_checker = {"h0": comms.GraceWatcher(10 ** 9)}
+    br2.transmit_idx_counter = 0
+    peer2 = Endpoint(comms, "E")
+    peer2.sender.add_host("controller", "C")
+    br2.purge("h0", DatasetId("t", "7"))
+    dropped2, polls2, answered = set(), [0], [False]
+
+    def hook3():
+        polls2[0] += 1
+        if polls2[0] > 120:
+            raise Stop()
+        for dest, frames in list(net.wire):
+            net.wire.remove((dest, frames))
+            key = frames[0]
+            if len(frames) >= 2 and dest == "E" and key not in dropped2:
+                dropped2.add(key)          # the first transmission of the controller's command is lost
+                continue
+            net.inbox[dest].append(frames)
+        peer2.step()
+        if peer2.delivered and not answered[0]:
+            answered[0] = True
+            peer2.sender.send("controller", DatasetPublished(w, DatasetId("t", "8"), None))
+        net.now += 300 * 1_000_000
+    FakePoller.hook = hook3
+    waited = None
+    try:
+        waited = br2.recv_events()
+    except Stop:
+        pass
+    except ValueError:
+        waited = "raised"   # giving up loudly is allowed ("the sender raises after a bounded number of retries")
+    FakePoller.hook = None
+    if waited is None:
+        problems.append(f"controller waiting in recv_events after its command was lost once: polled {polls2[0]} times ({polls2[0] * 0.3:.0f} simulated s), the command was "
+                        f"neither resent nor given up on (in flight: {len(br2.sender.inflight)}, executor received {list(map(repr, peer2.delivered))})")
     if list(map(repr, events)) != [repr(ev)]:
         problems.append(f"controller application received {list(map(repr, events))}, expected exactly [{ev!r}]")
     if list(map(repr, peer.delivered)) != [repr(DatasetPurge(DatasetId("t", "9")))]:
